@@ -120,7 +120,30 @@ class C04(common.Spec):
                 except BaseException:
                     pass
                 return
-            for t_us, e, dur in case['events']:
+            def deliver(t_us, e, dur):
+                if circuit.error is not None:
+                    return
+                data = {}
+                if dur is not None:
+                    data['duration'] = DUR[dur][0]
+                if case['kind'] == 'inputexp' and e == ['name', 'put']:
+                    data['value'] = 'V%d' % t_us
+                try:
+                    r = fsm.event(mk_etype(e), **data)
+                    res = ['ok', bool(r)]
+                except Exception as err:
+                    res = ['err', common.exc_enum(err) if not isinstance(err, AssertionError) else 'EOther']
+                steps.append(['ext', loop.vt_us, e, dur, res])
+
+            if case.get('cb_events'):
+                # the events are delivered by loop callbacks scheduled in advance: an event and a timer
+                # expiry of the same instant are both due in ONE loop iteration, and the event's handle,
+                # being older, usually runs first - the timer is then due but has not run yet
+                for t_us, e, dur in case['events']:
+                    orig_call_later(max(0.0, (t_us - loop.vt_us) / 1e6), deliver, t_us, e, dur)
+                if case['events']:
+                    await asyncio.sleep((case['events'][-1][0] - loop.vt_us) / 1e6 + 0.002)
+            for t_us, e, dur in ([] if case.get('cb_events') else case['events']):
                 delay = (t_us - loop.vt_us) / 1e6
                 if delay > 0:
                     await asyncio.sleep(delay)
@@ -349,7 +372,8 @@ def gen_case(rng):
         dur = rng.choice([None, None, None, 'd50', 'd200', 'zero', 'neg', 'inf', 's100'])
         events.append([t, e, dur])
     end = (times[-1] if times else 0) + rng.choice([0, 50_000, 250_000, 2_100_000])
-    return dict(kind=kind, events=events, end_us=end, stop=rng.random() < 0.6, **{'def': d})
+    return dict(kind=kind, events=events, end_us=end, stop=rng.random() < 0.6, cb_events=rng.random() < 0.3,
+                **{'def': d})
 
 
 def check(run):
